@@ -1,6 +1,7 @@
 package rules
 
 import (
+	"fmt"
 	"go/token"
 	"strings"
 
@@ -103,4 +104,119 @@ func tableOrHelperOf(P *core.Program, root *ssa.Function, table map[string]strin
 		return why, true
 	}
 	return rec(root)
+}
+
+// location identifies where a value is kept between statements: a local
+// variable cell (possibly captured), or a struct field (by type and field name —
+// the state of a scan kept in a small struct instead of captured locals).
+func locationOf(addr ssa.Value) string {
+	switch a := addr.(type) {
+	case *ssa.Alloc, *ssa.FreeVar:
+		if cell := core.CellOf(a); cell != nil {
+			return fmt.Sprintf("cell@%p", cell)
+		}
+	case *ssa.FieldAddr:
+		if sn, fn, ok := core.FieldName(a); ok && sn != "" {
+			return "field:" + sn + "." + fn
+		}
+	}
+	return ""
+}
+
+// loadedLocation: v is a load; returns the location it reads.
+func loadedLocation(v ssa.Value) string {
+	if ld, ok := core.Strip(v).(*ssa.UnOp); ok && ld.Op == token.MUL {
+		return locationOf(ld.X)
+	}
+	return ""
+}
+
+// storesToLocation lists every store to the location in the given package.
+func storesToLocation(P *core.Program, pkg, loc string) []*ssa.Store {
+	var out []*ssa.Store
+	for _, f := range P.SrcFuncs(pkg) {
+		for _, b := range f.Blocks {
+			for _, in := range b.Instrs {
+				if st, ok := in.(*ssa.Store); ok && locationOf(st.Addr) == loc {
+					out = append(out, st)
+				}
+			}
+		}
+	}
+	return out
+}
+
+// provenanceAll walks v backwards through φs, helper parameters (all callers),
+// closure bindings and variables / struct fields that hold it (all assignments)
+// and reports whether every source satisfies leaf.  leaf returns (decided, ok);
+// an undecided value that cannot be followed further counts as not ok.
+func provenanceAll(P *core.Program, pkg string, v ssa.Value, leaf func(ssa.Value) (bool, bool)) bool {
+	seen := map[ssa.Value]bool{}
+	seenLoc := map[string]bool{}
+	var walk func(v ssa.Value, depth int) bool
+	walk = func(v ssa.Value, depth int) bool {
+		v = core.Resolve(v)
+		if depth > 14 {
+			return false
+		}
+		if seen[v] {
+			return true
+		}
+		seen[v] = true
+		if decided, ok := leaf(v); decided {
+			return ok
+		}
+		switch x := v.(type) {
+		case *ssa.Phi:
+			for _, e := range x.Edges {
+				if !walk(e, depth+1) {
+					return false
+				}
+			}
+			return true
+		case *ssa.Parameter:
+			refs := P.Refs(x.Parent())
+			if len(refs) == 0 {
+				return false
+			}
+			for _, r := range refs {
+				t := core.Translate(x, x.Parent(), r)
+				if t == nil || !walk(t, depth+1) {
+					return false
+				}
+			}
+			return true
+		case *ssa.FreeVar:
+			for _, r := range P.Refs(x.Parent()) {
+				if t := core.Translate(x, x.Parent(), r); t != nil {
+					return walk(t, depth+1)
+				}
+			}
+			return false
+		case *ssa.UnOp:
+			if x.Op != token.MUL {
+				return false
+			}
+			loc := locationOf(x.X)
+			if loc == "" {
+				return false
+			}
+			if seenLoc[loc] {
+				return true
+			}
+			seenLoc[loc] = true
+			sts := storesToLocation(P, pkg, loc)
+			if len(sts) == 0 {
+				return false
+			}
+			for _, st := range sts {
+				if !walk(st.Val, depth+1) {
+					return false
+				}
+			}
+			return true
+		}
+		return false
+	}
+	return walk(v, 0)
 }
